@@ -159,7 +159,10 @@ type script struct {
 	NilEmpty bool    `json:"nil_empty"` // empty batches are nil slices (as mcToTriangles returns) rather than empty ones
 	// EachCloses: with several producers, every producer flushes with Close when IT has finished (while the
 	// others may still be writing) in addition to the final Close after all have finished
-	EachCloses bool   `json:"each_closes,omitempty"`
+	EachCloses bool `json:"each_closes,omitempty"`
+	// ReuseSlice: every producer fills ONE scratch slice again and again and hands sub-slices of it to Write
+	// (Write copies what it is given; the slice is the caller's to reuse once Write has returned)
+	ReuseSlice bool   `json:"reuse_slice,omitempty"`
 	Path       string `json:"-"`                // output path chosen by the caller (concurrent sinks); "" = tmpPath
 	Sliver     int    `json:"sliver,omitempty"` // triangles only: every Sliver-th item is a needle (see sliverOf); 0: none
 }
@@ -203,11 +206,18 @@ func (r *scripted3) Info(sdf.SDF3) string { return "scripted" }
 func (r *scripted3) Render(_ sdf.SDF3, out sdf.Triangle3Writer) {
 	bases, _ := r.s.totals()
 	run := func(p int) {
+		var scratch []*sdf.Triangle3
 		id := bases[p]
 		for j, b := range r.s.Batches[p] {
 			var batch []*sdf.Triangle3
 			if b > 0 || !r.s.NilEmpty {
 				batch = make([]*sdf.Triangle3, b)
+				if r.s.ReuseSlice {
+					if cap(scratch) < b {
+						scratch = make([]*sdf.Triangle3, b)
+					}
+					batch = scratch[:b]
+				}
 			}
 			for k := range batch {
 				batch[k] = r.s.item(id)
@@ -247,11 +257,18 @@ func (r *scripted2) Info(sdf.SDF2) string { return "scripted" }
 func (r *scripted2) Render(_ sdf.SDF2, out sdf.Line2Writer) {
 	bases, _ := r.s.totals()
 	run := func(p int) {
+		var scratch []*sdf.Line2
 		id := bases[p]
 		for j, b := range r.s.Batches[p] {
 			var batch []*sdf.Line2
 			if b > 0 || !r.s.NilEmpty {
 				batch = make([]*sdf.Line2, b)
+				if r.s.ReuseSlice {
+					if cap(scratch) < b {
+						scratch = make([]*sdf.Line2, b)
+					}
+					batch = scratch[:b]
+				}
 			}
 			for k := range batch {
 				batch[k] = segOf(id)
@@ -749,6 +766,7 @@ func drawScript(t *rapid.T, dim int) (*script, []string) {
 		np = rapid.IntRange(2, 8).Draw(t, "producers")
 	}
 	s.NilEmpty = rapid.Bool().Draw(t, "nil-empty")
+	s.ReuseSlice = rapid.IntRange(0, 3).Draw(t, "producer-reuses-its-slice") == 0
 	if np > 1 {
 		s.EachCloses = rapid.IntRange(0, 2).Draw(t, "each-producer-closes") == 0
 	}
@@ -830,7 +848,7 @@ func classify(s *script, T int) (nt bool, labels []string) {
 	if len(s.Batches) >= 2 {
 		nt = true
 	}
-	labels = append(labels, fmt.Sprintf("producers=%d", len(s.Batches)))
+	labels = append(labels, fmt.Sprintf("producers=%d", len(s.Batches)), fmt.Sprintf("producer-reuses-its-slice=%v", s.ReuseSlice))
 	if len(s.Batches) > 1 {
 		labels = append(labels, fmt.Sprintf("each-producer-closes=%v", s.EachCloses))
 	}
@@ -853,7 +871,7 @@ func runScript(t ev.TB, rec *ev.Rec, s *script, extra []string) {
 	for i := range labels {
 		labels[i] = pre + labels[i]
 	}
-	rec.Case(nt, ev.Key(s.Dim, s.Sink, s.Batches, s.Yield, s.NilEmpty, s.Sliver, s.EachCloses), labels...)
+	rec.Case(nt, ev.Key(s.Dim, s.Sink, s.Batches, s.Yield, s.NilEmpty, s.Sliver, s.EachCloses, s.ReuseSlice), labels...)
 	_, total := s.totals()
 	if total <= 600 {
 		rec.Sample(pre+s.Sink, s)
